@@ -22,11 +22,13 @@ def coq_site(I, site):
 
 def coq_entry(I, e):
     if e[0] == "notif":
-        _, kind, name, site, id_, ctx, params, running = e
+        _, lid, kind, name, site, id_, ctx, params, running = e
         n = ("{| n_kind := %s; n_name := %d; n_site := %s; n_id := %d; n_ctx := %s; n_params := %s |}"
              % (kind, I(name), coq_site(I, site), id_, "None" if ctx is None else "(Some %d)" % ctx,
                 coq_list([coq_param(I, p) for p in params])))
-        return "(ENotif %s %s)" % (n, coq_bool(running))
+        return "(ENotif %d %s %s)" % (lid, n, coq_bool(running))
+    if e[0] == "obs":
+        return "(EObs %d %s %d %d %s)" % (e[1], e[2], I(e[3]), e[4], coq_bool(e[5]))
     if e[0] == "query":
         return "(EQuery %d %d)" % (I(e[1]), e[2])
     raise ValueError(e)
@@ -34,7 +36,7 @@ def coq_entry(I, e):
 
 def coq_callrec(I, r):
     return ("{| cr_ret := %s; cr_log := %s; cr_running := %s; cr_awaited := %s; cr_final := %s |}"
-            % (coq_bool(r["ret"]), coq_list([coq_entry(I, e) for e in r["log"] if e[0] in ("notif", "query")]),
+            % (coq_bool(r["ret"]), coq_list([coq_entry(I, e) for e in r["log"] if e[0] in ("notif", "query", "obs")]),
                coq_bool(r["running"]), coq_list([str(i) for i in r["awaited"]]), coq_bool(r["final"])))
 
 
@@ -43,6 +45,12 @@ def coq_apicall(op):
         return "AStart"
     if op[0] == "finish":
         return "(AFinish %d)" % op[1]
+    if op[0] == "register":
+        return "(ARegister %s %d)" % (op[1], op[2])
+    if op[0] == "attach":
+        return "(AAttach %d)" % op[1]
+    if op[0] == "detach":
+        return "(ADetach %d)" % op[1]
     return "AJunk"
 
 
@@ -54,6 +62,7 @@ def coq_runcase(I, case, script):
                coq_list([coq_apicall(o) for o in script])))
 
 
+HEADER_MON = "From PFDL Require Import Monitors.\nSet Printing Depth 100000.\nSet Printing Width 200.\n"
 HEADER = "From PFDL Require Import RunCase.\nSet Printing Depth 100000.\nSet Printing Width 200.\n"
 
 
